@@ -41,6 +41,7 @@ Definition writer_record (h : hash_alg) (salt : bytes) (hash : option bytes) : p
   {| ph_alg := alg_name h; ph_version := alg_version h; ph_params := alg_params h;
      ph_salt := Some salt; ph_hash := hash |}.
 
+Definition encrypted_b (e : encryption) : bool := match e with ENo => false | _ => true end.
 Definition SALT_LEN : nat := 16.
 Definition IV_LEN : nat := 16.
 
@@ -117,6 +118,15 @@ Section Plumbing.
       | MCbc => do _ <- take 16 ct; Ok (Some (k, iv), ct)
       | MCtr => Ok (Some (k, iv), ct)
       end
+    end.
+
+  (* the whole read: guard, IV, then the decrypting/decompressing pipeline (a section variable) *)
+  Variable decrypt : key -> bytes (* iv *) -> bytes (* ciphertext *) -> res bytes.
+  Definition decode (enc : encryption) (m : cipher_mode) (phsf pw : option bytes) (stream : bytes) : res bytes :=
+    do (k, ct) <- decode_open enc m phsf pw stream;
+    match k with
+    | None => Ok ct
+    | Some (k, iv) => decrypt k iv ct
     end.
 
   (* ---- which writer creates how many contexts ------------------------------------------- *)
